@@ -207,6 +207,106 @@ fn random_strategy() -> impl Strategy<Value = (String, bool)> {
     prop_oneof![2 => enc, 1 => any]
 }
 
+// ------------------------------------------------------------------ the sender / receiver path through packets
+/// "unescaping what the receiver decodes gives back exactly what the sender wrote": the escaped text is sent in a text field of
+/// a packet (encode, decode) and the received text unescaped. Texts are padded with leading ASCII so that their encoded form
+/// fills the field exactly, or leaves one byte (what is cut or dropped at the end of a full field is the risk); a text whose
+/// encoded form does not fit the field is out of scope here (C11 covers truncation).
+#[derive(Clone, Debug)]
+pub struct FieldCase {
+    pub s: String,
+    pub field: usize,
+    /// 0: as it is, 1: padded to the field's capacity, 2: to one byte less
+    pub fill: u8,
+    pub compressed: bool,
+}
+
+pub struct ThroughPackets;
+impl Part for ThroughPackets {
+    type Case = FieldCase;
+    fn name(&self) -> &'static str {
+        "escaped-text-through-packet-fields"
+    }
+    fn check(&self, c: &FieldCase, ev: &mut Local) -> Result<(), Fail> {
+        use crate::refs::build;
+        use crate::refs::compare::{decode_one, encode_one, mode_name};
+        let (variant, path) = build::TEXT_FIELDS[c.field % build::TEXT_FIELDS.len()];
+        let (cap, raw) = crate::props::c01::text_capacity(variant, path);
+        if raw || variant == "Mso" {
+            ev.class("raw or composite field: skipped");
+            return Ok(());
+        }
+        let mode = if c.compressed { insim::net::Mode::Compressed } else { insim::net::Mode::Uncompressed };
+        let wire_len = |t: &str| codepages::to_lossy_bytes(&escaping::escape(t)).len();
+        let mut s = c.s.clone();
+        let target = match c.fill {
+            1 => cap,
+            2 => cap.saturating_sub(1),
+            _ => 0,
+        };
+        let have = wire_len(&s);
+        if have < target {
+            s = format!("{}{s}", "a".repeat(target - have));
+        }
+        let esc = escaping::escape(&s).into_owned();
+        let bytes = codepages::to_lossy_bytes(&esc).into_owned();
+        if bytes.len() > cap {
+            ev.class("does not fit the field: skipped");
+            return Ok(());
+        }
+        // what the receiver's decoder makes of these bytes (part 1 / 2 check that unescaping it gives s)
+        let text = codepages::to_lossy_string(&bytes).into_owned();
+        if escaping::unescape(&text) != s {
+            ev.class("not an encodable text: skipped");
+            return Ok(());
+        }
+        let name = format!("{variant}.{path}");
+        let sent = build::text_packet(variant, path, &esc, 1).ok_or_else(|| Fail::new("harness:builder", name.clone()))?;
+        let want = build::text_packet(variant, path, &text, 1).ok_or_else(|| Fail::new("harness:builder", name.clone()))?;
+        let frame = encode_one(&sent, &mode).map_err(|e| Fail::new(format!("c12:packet-refused:{name}"), format!("{name} ({}): {esc:?} ({} encoded bytes, capacity {cap}): {e}", mode_name(&mode), bytes.len())))?;
+        let got = decode_one(&frame, &mode).map_err(|e| Fail::new(format!("c12:own-frame-rejected:{name}"), format!("{name}: {esc:?}: {e}")))?;
+        ensure!(
+            format!("{got:?}") == format!("{want:?}"),
+            format!("c12:sender-receiver-path-differs:{name}"),
+            "{name} ({}): the sender wrote {s:?}, escaped {esc:?} ({} encoded bytes in a field of capacity {cap}); frame {}; the receiver got {} - unescaped, that is not what was written (expected {})",
+            mode_name(&mode),
+            bytes.len(),
+            hex(&frame[..frame.len().min(140)]),
+            format!("{got:?}").chars().take(300).collect::<String>(),
+            format!("{want:?}").chars().take(300).collect::<String>()
+        );
+        ev.class(if bytes.len() == cap { "fills the field exactly" } else if bytes.len() + 1 == cap { "one byte short of the field" } else { "shorter" });
+        ev.class(&name);
+        if !s.is_ascii() || s.contains('^') {
+            ev.nontrivial(&(c.field, &s, c.compressed));
+        }
+        Ok(())
+    }
+    fn to_json(&self, c: &FieldCase) -> Value {
+        json!({"s": c.s, "field": c.field, "fill": c.fill, "compressed": c.compressed})
+    }
+    fn from_json(&self, v: &Value) -> Option<FieldCase> {
+        Some(FieldCase { s: v.get("s")?.as_str()?.to_string(), field: v.get("field")?.as_u64()? as usize, fill: v.get("fill")?.as_u64()? as u8, compressed: v.get("compressed")?.as_bool()? })
+    }
+}
+
+fn field_strategy() -> impl Strategy<Value = FieldCase> {
+    // short encodable texts (the padding brings them to the field's size): carets, codepage letters, double-byte characters
+    // whose trail byte is a caret or lead-like - mostly at the END of the text, where a full field is cut
+    let tables = crate::refs::cp::tables();
+    let awkward: Vec<char> = tables.iter().flat_map(|t| t.entries.iter()).filter(|(w, _)| w.len() == 2 && (w[1] == 0x5E || w[1] >= 0x81)).map(|(_, c)| *c).step_by(11).collect();
+    let ch = prop_oneof![
+        4 => Just('^'),
+        2 => proptest::char::range('0', '9'),
+        2 => prop::sample::select("LGCETBJHSK8".chars().collect::<Vec<_>>()),
+        2 => prop::sample::select(RESERVED.to_vec()),
+        2 => proptest::char::range(' ', '~'),
+        3 => prop::sample::select("éüßñ€ωшюěłış美日本ﾏ한글漢字".chars().collect::<Vec<_>>()),
+        4 => prop::sample::select(awkward),
+    ];
+    (proptest::collection::vec(ch, 0..8), 0usize..crate::refs::build::TEXT_FIELDS.len(), 0u8..3, any::<bool>()).prop_map(|(v, field, fill, compressed)| FieldCase { s: v.into_iter().collect(), field, fill, compressed })
+}
+
 /// long runs: strings whose number of reserved characters / carets / colour tokens sits at and around 255, 256, 257, 511, 512,
 /// 513, 65 535, 65 536, 65 537 (a counter narrower than usize, a capacity threshold)
 pub struct LongRuns;
@@ -238,7 +338,7 @@ impl Part for LongRuns {
 }
 
 pub fn parts() -> Vec<Box<dyn DynPart>> {
-    vec![Box::new(Alphabet), Box::new(RandomText), Box::new(LongRuns)]
+    vec![Box::new(Alphabet), Box::new(RandomText), Box::new(ThroughPackets), Box::new(LongRuns)]
 }
 
 pub fn run(run: &mut Run) {
@@ -254,6 +354,9 @@ pub fn run(run: &mut Run) {
     run.enumerate(&Alphabet, total, true, |i| nth(i, maxlen));
     let n = run.budget(400_000, 30_000_000);
     run.prop(&RandomText, random_strategy(), n);
+    // the sender / receiver path through the text fields of packets, texts filling the field exactly
+    let n = run.budget(150_000, 5_000_000);
+    run.prop(&ThroughPackets, field_strategy(), n);
     // long runs around the widths of a narrow counter
     let mut runs: Vec<(String, usize, String)> = vec![];
     for unit in ["^", "/", "|", "*", ":", "\\", "?", "\"", "<", ">", "#", "^1", "^^", "^h", "a^"] {
